@@ -78,17 +78,25 @@ func G8EdgeFact(from, to *ssa.BasicBlock) (G8Fact, bool) {
 // predecessor).
 func G8Lift(acc func(G8Fact) bool) func(G8Fact) bool {
 	var lifted func(f G8Fact, depth int) bool
+	onStack := map[*ssa.Phi]bool{}
 	lifted = func(f G8Fact, depth int) bool {
 		if acc(f) {
 			return true
 		}
-		if f.Nil || depth > 3 {
+		if f.Nil || depth > 8 {
 			return false
 		}
 		ph, ok := f.V.(*ssa.Phi)
 		if !ok || !isBoolT(ph.Type()) {
 			return false
 		}
+		if onStack[ph] {
+			// loop-carried flag (`found := false; for … { if c { found = true } }`): the value can
+			// only become pol through a constant edge, which is judged where it enters
+			return true
+		}
+		onStack[ph] = true
+		defer delete(onStack, ph)
 		for i, e := range ph.Edges {
 			if c, isC := ConstBool(e); isC && c != f.Pol {
 				continue // this edge cannot produce the polarity
